@@ -264,6 +264,14 @@ def ident_like(s):
 KEY_POOL = ["NEWKEY", "a", "KA0", "L2", "TYPE", "Z_9", "true_", "REGEX"]
 
 
+def count_sites(shape, kind):
+    role = None
+    if kind.startswith("IDENTIFIER-"):
+        kind, role = "IDENTIFIER", kind.split("-")[1]
+    sites = canonical_tokens(shape)[3]
+    return len([s for s in sites if s[1] == kind and (role is None or s[3] == role)])
+
+
 def run_site(shape, kind, si, v, check_emit=True, collect=None, role_filter=None):
     """Substitute site `si` (among the sites of token type `kind`) by a token carrying v; parse with the real Parser;
     compare field by field with the content model; compare the re-emitted text with the canonical text of the model."""
